@@ -33,7 +33,7 @@ func runMCC18(sc *work.Scratch, tag string, devs []string, tier string, check bo
 	} else {
 		cfg += "INVARIANTS EmitOutcome\nPROPERTIES WriteAfterAll\n" // the as-is model breaks the properties by design
 	}
-	r, err := tlc.Run(tlc.Opts{Module: "MC_C18", Cfg: cfg, Dir: filepath.Join(sc.Dir, "tlc-cli-"+tag), Workers: 16, Timeout: 20 * time.Minute, HeapGB: 8})
+	r, err := tlc.Run(tlc.Opts{Module: "MC_C18", Cfg: cfg, Dir: filepath.Join(sc.Dir, "tlc-cli-"+tag), Workers: 16, Timeout: 20 * time.Minute, HeapGB: 8, Coverage: check})
 	if err != nil {
 		return nil, r, err
 	}
@@ -89,6 +89,10 @@ func RunCLI(prop, tier, rule string) int {
 		return infra(prop, err)
 	}
 	design, dres, err := runMCC18(sc, "design", nil, tier, true)
+	if err != nil {
+		return infra(prop, err)
+	}
+	specActions, err := vacuity(prop, dres.Actions)
 	if err != nil {
 		return infra(prop, err)
 	}
@@ -281,7 +285,7 @@ func RunCLI(prop, tier, rule string) int {
 			"scenarios_enumerated_by_tlc": len(jobs), "byte_sweep_runs": len(sweeps),
 			"runs_exit_0": tally.Acc, "runs_exit_nonzero": tally.Rej,
 			"known_finding_events": tally.Known, "drift_events": tally.Drift, "exhaustive": true,
-			"checker_cmd": dres.Cmd, "open_deviations": devs,
+			"checker_cmd": dres.Cmd, "open_deviations": devs, "spec_actions": specActions,
 		},
 		Assumptions: []string{
 			"the scenario materialiser (harness/internal/cli) builds the file-system layout and flags the scenario names",
